@@ -131,6 +131,15 @@ class U:
                 ns[name] = fr
         ns.update(extra or {})
         ns["__module__"] = "extracted:" + relpath        # exceptions raised on these objects are the code's, not the model's
+        # every name the source class defines (methods, properties, class attributes): one that was not assembled (`only` / `skip`)
+        # is a gap of the harness, not a missing attribute of the code
+        src_names = set()
+        for item in node.body:
+            if isinstance(item, (_ast.FunctionDef, _ast.ClassDef)):
+                src_names.add(item.name)
+            elif isinstance(item, _ast.Assign):
+                src_names.update(t.id for t in item.targets if isinstance(t, _ast.Name))
+        ns["__vc_source_names__"] = src_names
         ns.setdefault("__doc__", _ast.get_docstring(node, clean=False))      # the class docstring is data some classes read (self.__doc__)
         cls = type(clsname, tuple(bases) or (object,), ns)
         for v in ns.values():
